@@ -19,22 +19,26 @@ EXTENDS ConnRule, TLC, Json
 CONSTANTS MaxCalls,        \* calls per behaviour
           Export,          \* print programs at call boundaries
           Interrupts_On,   \* environment may raise BaseException-class interrupts (C10)
-          Fixed            \* TRUE: the tree with the fix: commits; FALSE: as originally coded
+          Fixed,           \* TRUE: the tree with the fix: commits; FALSE: as originally coded
+          Pooled,          \* TRUE: the Client lives in a PooledClient's ObjectPool (sequential use: one pooled client)
+          Idle             \* pool_idle_timeout (0 = connections never expire); meaningful when Pooled
 
-Shapes == {"store1", "store2", "fetch", "misc1", "misc2", "quit"}
+Shapes == {"store1", "store2", "fetch", "misc1", "misc2", "count1", "quit"}     \* count1: incr / decr
 NCmd(sh) == IF sh \in {"store2", "misc2"} THEN 2 ELSE 1
 IsFetch(sh) == sh = "fetch"
-CanNoreply(sh) == sh \in {"store1", "store2", "misc1", "misc2"}
+CanNoreply(sh) == sh \in {"store1", "store2", "misc1", "misc2", "count1"}
 
 Cfgs == [naddr : 0..2, tls : BOOLEAN, nodelay : BOOLEAN, ignore_exc : BOOLEAN]
 GoodCfg(c) == (c.naddr = 0 => (~c.tls /\ ~c.nodelay))
 
 VARIABLES cfg, sock, nsock, sst, out, pc, call, cnt, budget, ncalls, addr, cur, err, units,
+          age,      \* ticks since the pooled client was released (saturating at Idle + 1)
           mon, bad, hist, evs
-vars == <<cfg, sock, nsock, sst, out, pc, call, cnt, budget, ncalls, addr, cur, err, units, mon, bad, hist, evs>>
-view == <<cfg, sock, nsock, sst, out, pc, call, cnt, budget, ncalls, addr, cur, err, units, mon, bad>>
+vars == <<cfg, sock, nsock, sst, out, pc, call, cnt, budget, ncalls, addr, cur, err, units, age, mon, bad, hist, evs>>
+view == <<cfg, sock, nsock, sst, out, pc, call, cnt, budget, ncalls, addr, cur, err, units, age, mon, bad>>
 
-Hdr == [kind |-> "client", tls |-> cfg.tls, ctmo |-> 3, tmo |-> 7, idle |-> 0, ignore_exc |-> cfg.ignore_exc]
+Hdr == [kind |-> IF Pooled THEN "pooled" ELSE "client", tls |-> cfg.tls, ctmo |-> 3, tmo |-> 7,
+        idle |-> IF Pooled THEN Idle ELSE 0, ignore_exc |-> cfg.ignore_exc]
 
 FeedFrom(ev, base) ==
             LET cl == CMonClauses(mon, ev)
@@ -72,9 +76,8 @@ Counters0 == [op \in {"getaddrinfo", "socket", "setsockopt", "wrap", "settimeout
 Init == /\ cfg \in {c \in Cfgs : GoodCfg(c)}
         /\ sock = 0 /\ nsock = 0 /\ sst = <<>> /\ out = <<>>
         /\ pc = "idle" /\ call = [id |-> 0] /\ cnt = Counters0 /\ budget = 0 /\ ncalls = 0
-        /\ addr = 0 /\ cur = 0 /\ err = FALSE /\ units = <<>>
-        /\ mon = CMonInit([kind |-> "client", tls |-> cfg.tls, ctmo |-> 3, tmo |-> 7, idle |-> 0,
-                           ignore_exc |-> cfg.ignore_exc])
+        /\ addr = 0 /\ cur = 0 /\ err = FALSE /\ units = <<>> /\ age = 0
+        /\ mon = CMonInit(Hdr)
         /\ bad = {} /\ hist = <<>> /\ evs = <<>>
 
 (* record the injected fault in the current call descriptor (last element of hist) *)
@@ -91,8 +94,24 @@ Begin(sh, nr) ==
   /\ hist' = Append(hist, [shape |-> sh, nr |-> nr, fault |-> NoFault, outcome |-> "none", evs |-> <<>>])
   /\ FeedFrom([e |-> "call", c |-> ncalls + 1, op |-> sh, kind |-> IF sh = "quit" THEN "quit" ELSE "data",
                rfault |-> FALSE, ro |-> IsFetch(sh)], <<>>)
-  /\ pc' = IF sock = 0 THEN "connect" ELSE "send"
+  /\ pc' = IF sock = 0 THEN "connect" ELSE IF Pooled /\ Idle > 0 /\ age > Idle THEN "expire" ELSE "send"
   /\ UNCHANGED <<cfg, sock, nsock, sst, out, addr, cur, err, units>>
+
+(* ObjectPool.get: the free client has idled longer than pool_idle_timeout -> after_remove closes it, *)
+(* a fresh client is created (no connection yet)                                                    *)
+Expire ==
+  /\ pc = "expire"
+  /\ sst' = [sst EXCEPT ![sock] = "closed"]
+  /\ Feed([e |-> "close", s |-> sock, fault |-> "none"])
+  /\ sock' = 0 /\ pc' = "connect" /\ Bump("close") /\ KeepHist
+  /\ UNCHANGED <<cfg, nsock, out, call, budget, ncalls, addr, cur, err, units>>
+
+(* virtual time between calls *)
+Tick ==
+  /\ pc = "idle" /\ Pooled /\ Idle > 0 /\ age <= Idle /\ ncalls > 0 /\ ncalls < MaxCalls
+  /\ Feed([e |-> "tick", d |-> 1])
+  /\ hist' = Append(hist, [shape |-> "tick", nr |-> FALSE, fault |-> NoFault, outcome |-> "none", evs |-> <<>>])
+  /\ UNCHANGED <<cfg, sock, nsock, sst, out, pc, call, cnt, budget, ncalls, addr, cur, err, units>>
 
 (********************************* _connect *******************************)
 (* self.close() is a no-op here: _connect is only entered with sock = None *)
@@ -275,8 +294,10 @@ Recv ==
      IN \/ /\ Feed([e |-> "recv", s |-> sock, c |-> call.id, tmo |-> 7, n |-> 1, own |-> <<Head(out[sock])>>, fault |-> "none"])
            /\ out' = [out EXCEPT ![sock] = Tail(@)]
            /\ call' = [call EXCEPT !.need = @ - 1]
-           /\ pc' = IF uk = "error" \/ (uk = "garbage" /\ call.shape \notin {"misc1", "misc2"})
+           /\ pc' = IF uk = "error" \/ (uk = "garbage" /\ call.shape \notin {"misc1", "misc2", "count1"})
                       THEN "handler"                                   \* _raise_errors / MemcacheUnknownError
+                      ELSE IF uk = "garbage" /\ call.shape = "count1"
+                      THEN "valerr"                                    \* int(<garbage>) raises ValueError after the exchange
                       ELSE IF call.need = 1 THEN "done" ELSE "recv"
            /\ KeepHist /\ budget' = budget
         \/ \E kd \in MayFail("recv") :
@@ -297,6 +318,19 @@ Handler ==
        ELSE /\ Silent /\ UNCHANGED <<sst, sock, cnt>>
   /\ call' = [call EXCEPT !.mode = IF IsFetch(call.shape) /\ cfg.ignore_exc /\ ~IsIntr(hist[Len(hist)].fault.kind)
                                      THEN "ret" ELSE "raise"]
+  /\ pc' = "finish" /\ KeepHist
+  /\ UNCHANGED <<cfg, nsock, out, budget, ncalls, addr, cur, err, units>>
+
+(* incr/decr: the reply line is not a number: ValueError is raised OUTSIDE the exchange's try block -- a plain *)
+(* Client keeps its (in-sync) connection; a pool destroys the client on any exception, which closes it        *)
+ValErr ==
+  /\ pc = "valerr"
+  /\ IF Pooled
+       THEN /\ sst' = [sst EXCEPT ![sock] = "closed"]
+            /\ Feed([e |-> "close", s |-> sock, fault |-> "none"])
+            /\ sock' = 0 /\ Bump("close")
+       ELSE /\ Silent /\ UNCHANGED <<sst, sock, cnt>>
+  /\ call' = [call EXCEPT !.mode = "raise"]
   /\ pc' = "finish" /\ KeepHist
   /\ UNCHANGED <<cfg, nsock, out, budget, ncalls, addr, cur, err, units>>
 
@@ -335,10 +369,15 @@ Emit == IF Export /\ pc = "finish" /\ pc' = "idle"
           THEN PrintT(ToJson([tag |-> "EXP", cfg |-> cfg, calls |-> hist']))
           ELSE TRUE
 
+(* the pooled client's idle age: reset when the call ends (release), advanced by Tick *)
+AgeStep == age' = IF pc = "finish" THEN 0
+                  ELSE IF pc = "idle" /\ pc' = "idle" THEN age + 1 ELSE age
+
 Next == (\/ \E sh \in Shapes, nr \in BOOLEAN : Begin(sh, nr)
+         \/ Expire \/ Tick
          \/ StartConnect \/ Resolve \/ Create \/ NoDelay \/ Wrap \/ LoopClose \/ Break \/ AfterLoop
          \/ CTmo \/ DoConnect \/ IOTmo \/ TryClose \/ ConnFail
-         \/ Send \/ Recv \/ Handler \/ Done \/ Finish) /\ Emit
+         \/ Send \/ Recv \/ Handler \/ ValErr \/ Done \/ Finish) /\ AgeStep /\ Emit
 
 Spec == Init /\ [][Next]_vars
 
